@@ -298,12 +298,12 @@ theorem toxic_commutes (v : UpdVariant) (e : Env) (sA : State) (r0 r : Request) 
     (hk : kindOf r = .toxic n) (hsf : stopFirst e sA r0 = some (x, s1)) :
     (step v e s1 r).2 = (step v e sA r).2 ∧
     stopFirst e (step v e sA r).1 r0 = some (x, (step v e s1 r).1) := by
-  obtain ⟨ex, rs, hdec, hne, hfind, hres, hdiff, hen, hs1⟩ := (stopFirst_spec e sA r0 x s1).mp hsf
+  obtain ⟨ex, rs, hdec, hne, hfind, hres, hdiff, hs1⟩ := (stopFirst_spec e sA r0 x s1).mp hsf
   obtain ⟨G, hG, hstep⟩ := step_toxic_via v e r n hk
   rw [hstep sA, hstep s1, hs1]
   obtain ⟨hresp, ex', hf', hl', hu', he', hst⟩ := via_comm G hG sA x.name ex hfind n
   refine ⟨hresp, ?_⟩
   rw [stopFirst_spec]
-  exact ⟨ex', rs, hdec, hne, hf', hres, by rw [hl', hu']; exact hdiff, by rw [he']; exact hen, hst⟩
+  exact ⟨ex', rs, hdec, hne, hf', hres, by rw [hl', hu']; exact hdiff, hst⟩
 
 end Toxi.Conc
